@@ -566,7 +566,7 @@ PLAN["C03"]["jobs"] = PLAN["C03"]["jobs"] + RESUME_DIST2
 PLAN["C05"]["jobs"] = PLAN["C05"]["jobs"] + RESUME_DIST2
 DISTBIN_JOBS = [
     S("h_iteration", it(2, N=1, d=1, C=2, fk=2, jk=5, pz=1, dist=1, dx=0), ["distribution.bins_stay_finite"]),
-    S("h_iteration", it(2, N=2, d=1, C=2, fk=2, jk=5, pz=1, dist=5, dx=0), ["distribution.bins_stay_finite"], tiers=T, split=8),
+    S("h_iteration", it(2, N=2, d=1, C=2, fk=2, jk=2, pz=1, dist=1, dx=0), ["distribution.bins_stay_finite"], tiers=T, split=8),
 ]
 PLAN["C06"]["jobs"] = PLAN["C06"]["jobs"] + DISTBIN_JOBS
 PLAN["C11"]["jobs"] = PLAN["C11"]["jobs"] + DISTBIN_JOBS
